@@ -28,7 +28,13 @@ type HookCase struct {
 	FollowUp   bool     `json:"follow_up,omitempty"`  // attempt one more transition after the target
 	Enumerated bool     `json:"enumerated,omitempty"`
 	LateReport bool     `json:"late_report,omitempty"` // a hook task reports (exit 0) after its timeout while a sibling is pending
-	Sibling    bool     `json:"sibling,omitempty"`     // one failing critical call + gated healthy call(s) at the same await point // part of the exhaustive single-failure enumeration
+	Sibling    bool     `json:"sibling,omitempty"`
+	// Stale: a call with await != trigger whose result waits for its await point longer than the
+	// hook's own (short) timeout; PauseMs = lab sleep before the target transition, BodySleepMs =
+	// the target's task transition sleeps that long
+	Stale       bool `json:"stale,omitempty"`
+	PauseMs     int  `json:"pause_ms,omitempty"`
+	BodySleepMs int  `json:"body_sleep_ms,omitempty"` // one failing critical call + gated healthy call(s) at the same await point // part of the exhaustive single-failure enumeration
 }
 
 func genWalk(r *rand.Rand, maxLen int) []string {
